@@ -61,7 +61,7 @@ WORDS = ["a", "bc", "d e", " x", "y ", "  ", " ", "\n", "\t z", "&amp;", "&lt;b&
 STYLES = ["font-style: italic", "font-weight: bold", "font-weight:400", "color: red", "font-style:normal;font-weight: 700", "", "x", ";;", "font-style: italic; color: blue"]
 
 
-def gen_html(rnd, depth=0, features=None, comments=False):
+def gen_html(rnd, depth=0, features=None, comments=False, inline=None):
     features = features if features is not None else set()
     parts = []
     for _ in range(rnd.randint(1, 4 if depth < 3 else 2)):
@@ -79,7 +79,7 @@ def gen_html(rnd, depth=0, features=None, comments=False):
         if r2 < 0.45:
             tag = rnd.choice(BLOCK)
         elif r2 < 0.85:
-            tag = rnd.choice(INLINE)
+            tag = rnd.choice(inline or INLINE)
         elif r2 < 0.93:
             tag = rnd.choice(IGNORE)
         else:
@@ -119,17 +119,17 @@ def gen_html(rnd, depth=0, features=None, comments=False):
             for _k in range(rnd.randint(1, 3)):
                 rr = rnd.random()
                 if rr < 0.7:
-                    inner.append("<li>%s</li>" % gen_html(rnd, depth + 2, features, comments))
+                    inner.append("<li>%s</li>" % gen_html(rnd, depth + 2, features, comments, inline))
                 elif rr < 0.85:
                     inner.append("<%s>%s</%s>" % (tag, "<li>n</li>" if rnd.random() < 0.7 else "", tag))
                     features.add("list-in-list")
                 else:
-                    inner.append(gen_html(rnd, depth + 2, features, comments))
+                    inner.append(gen_html(rnd, depth + 2, features, comments, inline))
             parts.append("<%s%s>%s</%s>" % (tag, attrs, rnd.choice(["", " ", "\n"]).join(inner), tag))
             continue
-        if tag in INLINE and rnd.random() < 0.2:
+        if tag in (inline or INLINE) and rnd.random() < 0.2:
             features.add("block-in-inline")
-        inner = gen_html(rnd, depth + 1, features, comments) if rnd.random() < 0.85 else ""
+        inner = gen_html(rnd, depth + 1, features, comments, inline) if rnd.random() < 0.85 else ""
         parts.append("<%s%s>%s</%s>" % (tag, attrs, inner, tag))
     return rnd.choice(["", "", " ", "\n"]).join(parts)
 
